@@ -72,6 +72,11 @@ func c12Progs() []c12Prog {
 		{"err-in-layout", map[string]string{"p.vuego": "---\nlayout: main\n---\n" + ok, "layouts/main.vuego": `<div v-html="content"></div><p>{{ x | nosuchfn }}</p>`}, "p.vuego", "", true},
 		{"err-bad-for", map[string]string{"p.vuego": ok + `<p v-for="oops">x</p>`}, "p.vuego", ok + `<p v-for="oops">x</p>`, true},
 		{"err-missing-file", map[string]string{"other.vuego": ok}, "p.vuego", "", true},
+		// documents nested far deeper than any indentation table: a page file of 140 nested elements, and a recursive component 48 levels
+		// deep with three elements per level (the fail-at sweep of these two is sparse: every 211th offset)
+		{"ok-deep-page", map[string]string{"p.vuego": strings.Repeat("<div>", 140) + "<p>{{ items }}</p>" + strings.Repeat("</div>", 140)}, "p.vuego", strings.Repeat("<div>", 140) + "<p>x</p>" + strings.Repeat("</div>", 140), false},
+		{"ok-deep-recursion", map[string]string{"p.vuego": `<section><template include="t.vuego" :n="48"></template></section>`,
+			"t.vuego": `<div><ul><li>level {{ n }}<template v-if="n > 1" include="t.vuego" :n="n - 1"></template></li></ul></div>`}, "p.vuego", "", false},
 	}
 }
 
@@ -180,7 +185,14 @@ func runC12(r *Run, replay *Case) {
 			if err != nil {
 				continue
 			}
-			for k := 0; k <= len(full); k++ {
+			step := 1
+			if strings.HasPrefix(p.desc, "ok-deep") {
+				step = 211
+			}
+			for k := 0; k <= len(full); k += step {
+				if step > 1 && k+step > len(full) {
+					k = len(full) // always end on the complete document
+				}
 				wk := &failWriter{failAt: k}
 				errk, _ := c12Call(p, e, context.Background(), wk)
 				ck := mk("fail-at", k)
